@@ -9,7 +9,7 @@ meta = json.load(open(os.path.join(ROOT, "tools", "manifest_meta.json")))
 all_ids = [json.loads(l)["id"] for l in open(os.path.join(ROOT, "properties.jsonl")) if l.strip()]
 checks = []
 for pid in all_ids:
-    if pid not in P.PROPS or pid in meta.get("not_applicable", {}):
+    if pid not in P.PROPS or pid in meta.get("not_applicable", {}) or not P.PROPS[pid].get("claimed", True):
         continue
     spec = P.PROPS[pid]
     m = meta["checks"].get(pid, {})
@@ -29,7 +29,7 @@ na = []
 for pid in all_ids:
     if pid in meta.get("not_applicable", {}):
         na.append({"property_id": pid, "reason": meta["not_applicable"][pid]})
-    elif pid not in P.PROPS:
+    elif pid not in P.PROPS or not P.PROPS[pid].get("claimed", True):
         na.append({"property_id": pid, "reason": "not claimed yet: its engine and theorems are still under construction (see DESIGN.md section 6 %s)" % pid})
 hooks = meta["hooks"]
 man = {
